@@ -149,7 +149,9 @@ impl Cell for str {
             }
             // Don't add the delimiter if we just trimmed whitespace.
             if self[boundary..].trim().is_empty() {
-                self[..boundary + 1].to_owned()
+                // Keep the first trimmed whitespace character, which may be multi-byte.
+                let ws = self[boundary..].chars().next().map_or(0, char::len_utf8);
+                self[..boundary + ws].to_owned()
             } else {
                 format!("{}{delim}", &self[..boundary])
             }
